@@ -92,18 +92,16 @@ Definition mcfg_of (pc : pcfg) : mcfg :=
   mkcfg (render (resolve (p_user pc))) (render' (resolve (p_filedir pc))) (render (resolve (p_stats pc))) [].
 
 (* the three kinds of write under a Config *)
-Definition cfg_user_plan (pc : pcfg) : bytes * bytes * bytes := save_plan (p_user pc).
+Definition cfg_user_plan (pc : pcfg) : option (bytes * bytes * bytes) := save_dict_plan (p_user pc).
+(* HISTORY (before a91f3ee, finding FC10b): save_dict without the file-name check *)
+Definition cfg_user_plan_old (pc : pcfg) : bytes * bytes * bytes := save_plan (p_user pc).
 Definition cfg_file_plan (pc : pcfg) (fp : option bytes) : option (bytes * bytes * bytes) :=
   match fp with
   | None => None
   | Some p => if beqb (file_dict_name p) [] then None
-              else Some (save_plan (p_filedir pc ++ comps (file_dict_name p)))
+              else save_dict_plan (p_filedir pc ++ comps (file_dict_name p))
   end.
 Definition cfg_stats_write (pc : pcfg) : bytes := render (resolve (p_stats pc)).
-
-(* a component list that names a file: there is a last component and it is not ".." *)
-Definition names_file (cs : list bytes) : bool :=
-  match rev cs with n :: _ => negb (beqb n dotdot) | [] => false end.
 
 (* for the driver: the three locations of the parsed configuration, or None *)
 Definition parse_render (e : penv) (u f s : sval) : option (bytes * bytes * bytes) :=
